@@ -69,7 +69,9 @@ def run_job(job, rec):
             pos = G.random_points(rng, npar, d, far=True)
             rec.count("cases:positions_far_from_origin")
         theta_c = G.random_theta(spec, rng, pos, y_scale)
-        mean_name = "Constant" if far else str(rng.choice(G.MEANS))   # (a trend about a centroid near 1e7 carries the centroid's rounding)
+        mean_name = "Constant" if far else str(rng.choice(G.MEANS + ["UserDecay"]))   # (a trend about a centroid near 1e7 carries the centroid's rounding)
+        if mean_name == "UserDecay":
+            rec.count("cases:user_written_mean")
         theta_m = G.random_mean_theta(mean_name, rng, pos, y_scale)
         theta = np.concatenate([theta_m, theta_c])
         truth = y_scale * np.sin(3 * (pos - pos.mean(0)) @ (rng.normal(size=d) / np.where(np.ptp(pos, 0) > 0, np.ptp(pos, 0), 1)))
